@@ -841,7 +841,61 @@ class Lib:
         return list(self.iterate(I, x))
 
     def b_isinstance(self, I, a, k):
-        raise Unsupported("isinstance")
+        """isinstance(x, T) for the builtin types and repository classes; anything else is outside the subset."""
+        if len(a) != 2 or k:
+            raise Unsupported("isinstance arguments")
+        x, T_ = I.force(a[0]), a[1]
+        types = list(T_) if isinstance(T_, tuple) else [T_]
+
+        def kind_of(v):
+            if v is None:
+                return "NoneType"
+            if isinstance(v, bool) or is_sym(v, "bool"):
+                return "bool"
+            if isinstance(v, int) or is_sym(v, "int"):
+                return "int"
+            if isinstance(v, float) or is_sym(v, "float"):
+                return "float"
+            if isinstance(v, str) or is_sym(v, "str"):
+                return "str"
+            if is_sym(v, "bytes") or (isinstance(v, LibObj) and v.kind == "pybytes_sym"):
+                return "bytes"
+            if isinstance(v, (dict,)) or (isinstance(v, LibObj) and v.kind == "local_dict") or (isinstance(v, Obj) and v.typ.kind == "dict"):
+                return "dict"
+            if isinstance(v, list):
+                return "list"
+            if isinstance(v, tuple):
+                return "tuple"
+            if isinstance(v, (set, frozenset)):
+                return "set"
+            if isinstance(v, LibObj) and v.kind == "json_scalar":
+                return v.jkind  # "list" / "float"
+            return None
+        kx = kind_of(x)
+        out = False
+        for t in types:
+            if isinstance(t, Builtin):
+                if kx is None:
+                    if isinstance(x, (Obj, ExcObj)) and t.name in ("int", "str", "bool", "float", "dict", "list", "tuple", "set", "bytes"):
+                        continue  # an instance of a repository class is none of the builtin value types
+                    raise Unsupported(f"isinstance of {x!r}")
+                if t.name == kx or (t.name == "int" and kx == "bool"):
+                    out = True
+            elif isinstance(t, ClassVal) or isinstance(t, BuiltinExc):
+                if isinstance(x, ExcObj):
+                    out = out or x.cls.is_subclass_of(t)
+                elif isinstance(x, Obj) and x.typ.kind == "obj" and isinstance(t, ClassVal):
+                    c = I.class_of(x)
+                    if c is None:
+                        raise Unsupported(f"isinstance of {x!r}")
+                    out = out or c.is_subclass_of(t)
+                elif kx is not None or isinstance(x, (Obj, ExcObj)):
+                    continue
+                else:
+                    raise Unsupported(f"isinstance of {x!r}")
+            else:
+                raise Unsupported(f"isinstance against {t!r}")
+        return out
 
     def b_type(self, I, a, k):
         c = I.class_of(a[0])
